@@ -182,6 +182,32 @@ def D6(m, R):
                                 ok_wrap = False
                         if ok_wrap:
                             facts.append((norm(c_.args[0]), norm(c_.args[1]), n.targets[0].id, sign, n))
+    # a counting helper nested in _strip: one parameter (what is scanned), the membership set read from the enclosing scope
+    nested = {d_.name: d_ for d_ in f.node.body if isinstance(d_, ast.FunctionDef)}
+    for n in f.walk():
+        if isinstance(n, ast.Assign) and isinstance(n.targets[0], ast.Name):
+            for c_ in ast.walk(n.value):
+                if isinstance(c_, ast.Call) and isinstance(c_.func, ast.Name) and c_.func.id in nested and len(c_.args) == 1 and not c_.keywords:
+                    d_ = nested[c_.func.id]
+                    ps_ = [a_.arg for a_ in d_.args.args]
+                    hl = [x for x in d_.body if isinstance(x, ast.For)]
+                    hs = scan_of(hl[0]) if len(hl) == 1 else None
+                    rets_ = [x for x in ast.walk(d_) if isinstance(x, ast.Return)]
+                    if hs is not None and len(ps_) == 1 and hs[0] == ps_[0] and hs[3] == 1 and len(rets_) == 1 and norm(rets_[0].value) == hs[2]:
+                        sign, ok_wrap = 1, True
+                        for p_ in _parents(c_):
+                            if p_ is n:
+                                break
+                            if isinstance(p_, ast.UnaryOp) and isinstance(p_.op, ast.USub):
+                                sign = -sign
+                            elif isinstance(p_, ast.BoolOp) and isinstance(p_.op, ast.Or) and len(p_.values) == 2 and const_val(p_.values[1], 0) is None:
+                                pass
+                            elif isinstance(p_, ast.IfExp) and const_val(p_.orelse, 1) in (0, None) and not any(x is c_ for x in ast.walk(p_.test)):
+                                pass
+                            else:
+                                ok_wrap = False
+                        if ok_wrap:
+                            facts.append((norm(c_.args[0]), hs[1], n.targets[0].id, sign, n))
     seen = {'fwd': None, 'rev': None}
     for fct in facts:
         if fct[0] == txt:
